@@ -98,6 +98,16 @@ def pad_rules(chk, repo):
             chk.ob('C20-a', 'N-identity', f.key, f'output shape [{tag}]',
                    isinstance(oshape, Tup) and Tup(oshape.items) == want_shape,
                    f'allocates {fmt(oshape)}; expected {fmt(want_shape)}', f.loc(p.node))
+            # ... of the element type of the input: a complex cube padded into a float array loses its imaginary part
+            dt_ok = None
+            if is_app(ba, ('zeros', 'empty', 'full', 'zeros_like')):
+                dts = [x.items[1] for x in ba[2] if isinstance(x, Tup) and len(x) == 2 and isinstance(x.items[0], Const) and x.items[0].value == 'dtype']
+                dts += [z.items[1] for x in ba[2] if isinstance(x, Tup) for z in x.items if isinstance(z, Tup) and len(z) == 2
+                        and isinstance(z.items[0], Const) and z.items[0].value == 'dtype']
+                dt_ok = bool(dts) and dts[0] == nf.attr(arr, 'dtype') or is_app(ba, 'zeros_like')
+            chk.ob('C20-a', 'T-dtype', f.key, f'the padded array has the element type of the input [{tag}]', dt_ok,
+                   '' if dt_ok else f'allocated as {nf.fmt_atom(ba)[:100]}: the default float64 drops the imaginary part of a complex array',
+                   f.loc(p.node))
             for ax in (0, 1):
                 d, s = dks[ax + off], sks[ax + off]
                 if not isinstance(d, Slice) or not isinstance(s, Slice):
@@ -278,6 +288,10 @@ def helper_rules(chk, repo):
         calls = p.calls('util.boundary')
         if not calls or not (isinstance(p.ret, Tup) and len(p.ret) == 2):
             raise AnalysisError('helper.boundary_slice: not understood')
+        thr = calls[0].bound.get('threshold')
+        chk.ob('C20-d', 'D-flow', f.key, 'the bounding box is taken at the threshold the caller gave',
+               thr == S('threshold'), f'lentil.boundary is called with threshold = {fmt(thr) if thr is not None else "its default"}: '
+               'the `threshold` argument is accepted and ignored' if thr != S('threshold') else '', f.loc(calls[0].node))
         b = [nf.index(calls[0].result, C(i)) for i in range(4)]
         xs = nf.attr(S('x'), 'shape')
         pd = pair('pad')
